@@ -83,18 +83,21 @@ prop("C02", modules=["runner"], functions=[MRL, "runner:process_existing_memento
      trusted=["interface contract of the abstract StorageBackend (dictionary view) -- refined by StorageBackendBase under C05",
               "MementoException.from_exception / to_exception round trip and ResultType.from_object are assumed contracts here"],
      assumptions=RUNNER_ASSUME)
-prop("C10", modules=["runner"], functions=["runner_local:propagate_dependencies", MRL, BR], split={MRL: 12, BR: 14},
+prop("C10", modules=["runner"], functions=["runner_local:propagate_dependencies", MRL, BR, "resource_function:ResourceFunction.__call__"], split={MRL: 12, BR: 14},
      design_ref="DESIGN.md section 6, C10",
      trusted=["interface contract of the abstract StorageBackend", "induction over the call tree (DESIGN 6, C10 lemma)"],
      assumptions=RUNNER_ASSUME)
-prop("C15", modules=["runner"], functions=[BR], split={BR: 14},
+prop("C15", modules=["runner"], functions=[BR, "base:MementoFunctionBase.call_batch"], split={BR: 14},
      design_ref="DESIGN.md section 6, C15",
-     trusted=["memento_run_local's contract (proved under C02)", "interface contract of the abstract StorageBackend"],
+     trusted=["memento_run_local's contract (proved under C02)", "interface contract of the abstract StorageBackend",
+              "call_batch: memento_run_batch by its contract (proved under C16); RunnerBackend.batch_run of an arbitrary runner returns one slot per reference (its documented interface; proved for the local runner); "
+              "Environment.get().get_cluster(name) and self.fn_reference() are functions of their receiver within the call; map_over_range is not under contract"],
      assumptions=RUNNER_ASSUME)
-prop("C16", modules=["runner"], functions=["runner_local:memento_run_batch"],
+prop("C16", modules=["runner"], functions=["runner_local:memento_run_batch", "base:MementoFunctionBase.with_context_args", "base:MementoFunctionBase.with_prevent_further_calls"],
      design_ref="DESIGN.md section 6, C16",
      trusted=["RunnerBackend.batch_run of an arbitrary runner is opaque: the proof is about what is dispatched to it",
-              "FunctionReferenceWithArguments.__init__ keeps its four arguments (C04 examines it)"],
+              "FunctionReferenceWithArguments.__init__ keeps its four arguments (C04 examines it)",
+              "InvocationContext.update_recursive / RecursiveContext.update (copies made through __dict__) replace exactly the named field (assumed model); clone_with is abstract in MementoFunctionBase: the proof is about the context the clone is given"],
      assumptions=RUNNER_ASSUME)
 
 FS = "storage_filesystem:FilesystemStorageBackend."
